@@ -114,8 +114,10 @@ func elemMayCarryRules(t reflect.Type) bool {
 	switch t.Kind() {
 	case reflect.Struct, reflect.Interface:
 		return true
-	case reflect.Slice, reflect.Array, reflect.Map:
+	case reflect.Slice, reflect.Array:
 		return elemMayCarryRules(t.Elem())
+	case reflect.Map:
+		return elemMayCarryRules(t.Elem()) || elemMayCarryRules(t.Key())
 	}
 	return false
 }
